@@ -70,6 +70,14 @@ def gen_config(rng, out, reshape=False):
         lines.append("ctl " + " ".join(ctl))
         lines.append("out " + out)
         return "\n".join(lines) + "\n"
+    if not reshape and rng.random() < 0.08:
+        # stop right after start: the freshly created streamer (thread 2) has not run yet when stop arrives, while the caller's
+        # first frame call is somewhere between its entry and its wait - stop has to release it all the same
+        ctl = ["mark", "start"] + (["yield", str(rng.choice([0, 1, 2, 4]))] if rng.random() < 0.6 else []) + ["stop"]
+        lines.append("window ctl_mark 0 2 %d x" % rng.choice([30, 80, 200]))
+        lines.append("ctl " + " ".join(ctl))
+        lines.append("out " + out)
+        return "\n".join(lines) + "\n"
     for run in range(rng.randint(1, 3)):
         # re-configuration while stopped: any number of trigger toggles (incl. off-and-on-again) before the next start
         if reshape and rng.random() < 0.4:
